@@ -32,6 +32,29 @@ PLANS = {
     "C20": dict(families=dict(quick=[("restore", 24, 400), ("restoreinflight", 16, 0)], thorough=[("restore", 240, 600), ("restoreinflight", 128, 0), ("apibound", 48, 0), ("restorebacklog", 32, 0)])),
 }
 
+# Every property predicate is evaluated on every trace, whichever family produced it. A change to the library that
+# breaks property X often needs a history that was staged for property Y (a truncated configuration entry, a voter
+# restarting in the term it voted in, a slow store under the fast path ...): each cluster-level check therefore also
+# runs a few seeds of every directed family it does not already run, starting at a run number of its own.
+POOL = ["figure8", "cfgtrunc", "snapcfgrace", "restoreinflight", "prevoteterm", "leaseiso", "voterestart", "stalerepl",
+        "demoteelect", "barrierrace", "transferhang", "notifyshort", "fastpathrace", "xferisolated", "stalledleader",
+        "restorebacklog", "ctcrash", "apibound", "leaseadd", "verifywide", "fastpathterm", "mixedbatch", "xfernonvoter",
+        "cfgtruncelect", "snapvote", "phases", "staleprefix"]
+POOL_RUNS = dict(quick=2, thorough=8)
+
+
+def families_of(pid, tier):
+    fams = list(PLANS[pid]["families"][tier])
+    if not fams:
+        return fams
+    have = {f[0] for f in fams}
+    k = int(pid[1:])
+    for f in POOL:
+        if f not in have:
+            fams.append((f, POOL_RUNS[tier], 0, 100 + (k * POOL_RUNS[tier]) % 24))
+    return fams
+
+
 ASSUMPTIONS = [
     "collaborators (Transport, LogStore, StableStore, SnapshotStore, FSM) are the harness's simulated ones; real disks/kernels/networks are outside",
     "schedules are explored at the granularity of gated interface calls inside a testing/synctest bubble (virtual time)",
@@ -71,6 +94,7 @@ def run(pid, tier, seed):
         log("property %s is not claimed by a check" % pid)
         return 2
     plan = PLANS[pid]
+    fams = families_of(pid, tier)
     t0 = time.time()
     outdir = os.path.join(vcheck.OUT, pid, tier)
     os.makedirs(outdir, exist_ok=True)
@@ -115,8 +139,8 @@ def run(pid, tier, seed):
             problems += r["problems"]
     # 2. real code under the simulator
     traces, bad = ([], [])
-    if plan["families"][tier]:
-        traces, bad = vcheck.run_families(bins["sim"], plan["families"][tier], seed, os.path.join(outdir, "traces"))
+    if fams:
+        traces, bad = vcheck.run_families(bins["sim"], fams, seed, os.path.join(outdir, "traces"))
     panic_viols = []
     for job, rc, out in bad:
         pv = classify_panic(job, out, os.path.join(outdir, "traces"))
@@ -124,9 +148,9 @@ def run(pid, tier, seed):
             panic_viols.append(pv)
         else:
             problems.append("simulator job %s exited %d: %s" % (job, rc, out[-400:].replace("\n", " | ")))
-    log("SIM %d traces from %s (seed %d)" % (len(traces), [f[0] for f in plan["families"][tier]], seed))
+    log("SIM %d traces from %s (seed %d)" % (len(traces), [f[0] for f in fams], seed))
     # 3. TLC judges every trace
-    if plan["families"][tier]:
+    if fams:
         res = vcheck.validate_traces(traces, os.path.join(outdir, "tlc"))
     else:
         res = dict(viols=[], nonconf=[], lines=0, traces_ok=0, states=0, problems=[], infos=[])
@@ -170,11 +194,11 @@ def run(pid, tier, seed):
         "generated_case_suites": [{k: r[k] for k in ("suite", "rows", "distinct", "replayed", "exhaustive", "bounds")} for r in suite_res],
         "samples": samples or [{"note": "no trace produced"}],
         "models": [{k: m.get(k) for k in ("module", "cfg", "ok", "states", "distinct", "depth", "wall_s", "expected_counterexample")} for m in models],
-        "families": [{"family": f, "runs": r, "steps": s} for (f, r, s) in plan["families"][tier]],
+        "families": [{"family": e[0], "runs": e[1], "steps": e[2]} for e in fams],
         "trace_lines": res["lines"], "nonconformance_notes": len(res["nonconf"]), "nonconformance_kinds": len(nc_kinds),
         "known_findings_seen": sorted(seen_known.keys()),
         "problems": problems,
-        "exhaustive": bool(suite_res) and not plan["families"][tier],
+        "exhaustive": bool(suite_res) and not fams,
     }
     vcheck.write_evidence(pid, tier, seed, "model_checking", cov, time.time() - t0, len(new), ASSUMPTIONS)
     if new:
